@@ -35,7 +35,11 @@ func SplitRawStatements(filepath, s string) ([]*RawStatement, error) {
 			if err := lex.NextToken(); err != nil {
 				return nil, err
 			}
+			// The comments before the next token belong to the next statement.
 			firstPos = lex.Token.Pos
+			if len(lex.Token.Comments) > 0 {
+				firstPos = lex.Token.Comments[0].Pos
+			}
 			continue
 		}
 
